@@ -9,7 +9,7 @@ PID = "C07"
 LEVEL = "model_checking"
 RULE = ("build files from a grammar: {sphere, cylinder, rectangle} x {in, out} x 2 sizes x residue ranges (all / a sub-range); "
         "rw_restriction with 2 normals x 2 signed angles, two restrictions on one molecule (disjoint residues; the same residues); distance restraints (d in {0.5, 1.5}, tol in {0, 0.3}) between the ends "
-        "of linear chains of 4-6 residues; -cycles on rings of 3-6 residues with cycle_tol in {0, 0.3}; persistence_length on "
+        "of linear chains of 4-6 residues; -cycles on rings of 3-6 residues with cycle_tol in {0, 0.3} and on rings of 4 with a tail of 2 (at the far side / at the first residue); persistence_length on "
         "chains of 5-6 residues with every sampled end-to-end distance as an option; every trajectory of the real gen_coords with "
         "<=2 direction deviations (thorough 3) and <=1 start deviation. Oracle on every accepted placement and on the final "
         "positions: independent geometric predicates for every selected residue; growth direction (minimum-image step vector) "
@@ -80,6 +80,8 @@ def systems(tier):
         for tol in (0.0, 0.3):
             # rings need the face-diagonal directions (60 degree angles exist among them) to be closable within one step
             out.append(dict(types=[typ], molecules=[(typ, 1)], box=BOX, grid=GRID, cyc=True, bundle="axis+face18", kwargs=dict(cycles=[typ], cycle_tol=tol, nrewind=3, maxiter=4)))
+    for typ in ("LASSO", "LASSO0"):
+        out.append(dict(types=[typ], molecules=[(typ, 1)], box=BOX, grid=GRID, cyc=True, bundle="axis+face18", kwargs=dict(cycles=[typ], cycle_tol=0.3, nrewind=3, maxiter=4)))
     for typ in ("CH5", "CH6"):
         n = len(G.TYPES[typ]["res"])
         out.append(dict(types=[typ], molecules=[(typ, 2)], box=BOX, grid=GRID, pers=dict(lp=1.0, start=0, stop=n - 1), kwargs=dict(nrewind=3, maxiter=4)))
